@@ -2,16 +2,54 @@
 (* Judges a system call trace (strace of `vh mmap-run`, converted to ndjson *)
 (* with addresses projected to (region id, page offset)) against Mmap.      *)
 (* Lengths and offsets are in units of `unit` bytes given per event.        *)
+(* Besides the accounting, every call is one step of the protocol design    *)
+(* MmapProto (one model thread per buffer slot, sizes normalised to one     *)
+(* model page, slot k placed at model pages 2k, 2k+1): a creation or a drop *)
+(* may only issue the calls of its protocol path, in order, on the ranges   *)
+(* the design says. Labels proto_*.                                         *)
 EXTENDS Mmap, Json, IOUtils, TLCExt
 VARIABLE l
 Rec == ndJsonDeserialize(IOEnv.TRACE)
-TraceInit == Init /\ l = 1
+Slots == {Rec[i].slot : i \in {j \in 1 .. Len(Rec) : Rec[j].ev = "begin"}}
+MaxSlot == IF Slots = {} THEN 1 ELSE CHOOSE m \in Slots : \A x \in Slots : x <= m
+VARIABLES mem, pc, base, sz, fdopen, res, bad
+P == INSTANCE MmapProto WITH Pages <- 2 * MaxSlot + 2, Threads <- Slots, Sizes <- {1}, Foreign <- 0, Quirks <- {}
+pv == <<mem, pc, base, sz, fdopen, res, bad>>
+TraceInit == Init /\ P!PInit /\ l = 1
 Chk(p, label) == IF p THEN TRUE ELSE PrintT("CHECK-FAILED " \o ToString(l) \o " " \o label)
 Same == UNCHANGED vars
+(* The protocol step for a call of the current bracket: `ok` is the guard   *)
+(* of the protocol action, `act` the action; a call the design does not     *)
+(* allow here is reported and leaves the protocol state alone.              *)
+Proto(ok, act, label) == IF ok THEN act ELSE Chk(FALSE, label) /\ UNCHANGED pv
+T == cur.slot
+InOp == cur.op # "none" /\ T \in Slots
+ProtoEv(e) ==
+  IF ~InOp THEN UNCHANGED pv
+  ELSE IF e.call = "openat" THEN
+       IF e.ret >= 0 THEN Proto(cur.op = "new" /\ pc[T] = "idle" /\ res[T] = "-", P!Open(T, 1), "proto_unexpected_open") ELSE UNCHANGED pv
+  ELSE IF e.call = "ftruncate" THEN
+       IF pc[T] = "trunc" THEN Chk(e.len = 2 * cur.size, "proto_range") /\ P!Trunc(T)
+       ELSE Proto(pc[T] = "shrink", Chk(e.len = cur.size, "proto_range") /\ P!Shrink(T), "proto_unexpected_ftruncate")
+  ELSE IF e.call = "mmap" /\ ~e.fixed THEN
+       IF e.ok THEN Proto(pc[T] = "map1" /\ mem[2 * T] = 0 /\ mem[2 * T + 1] = 0,
+                          Chk(e.len = 2 * cur.size, "proto_range") /\ P!Map1Ok(T, 2 * T), "proto_unexpected_mmap")
+       ELSE Proto(pc[T] = "map1", P!Map1Fail(T), "proto_unexpected_mmap")
+  ELSE IF e.call = "mmap" THEN
+       IF e.ok THEN Proto(pc[T] = "map2", Chk(e.off = cur.size /\ e.len = cur.size, "proto_range") /\ P!Map2Ok(T), "proto_unexpected_mmap_fixed")
+       ELSE Proto(pc[T] = "map2", P!Map2Fail(T), "proto_unexpected_mmap_fixed")
+  ELSE IF e.call = "munmap" THEN
+       IF pc[T] = "unmap_err" THEN Chk(e.off = 0 /\ e.len = 2 * cur.size, "proto_range") /\ P!UnmapErr(T)
+       ELSE IF pc[T] = "ready" /\ cur.op = "drop" THEN Chk(e.off = 0 /\ e.len = cur.size, "proto_range") /\ P!Drop1(T)
+       ELSE Proto(pc[T] = "drop2", Chk(e.off = cur.size /\ e.len = cur.size, "proto_range") /\ P!Drop2(T), "proto_unexpected_munmap")
+  ELSE IF e.call = "close" THEN
+       IF pc[T] = "close_err" THEN P!CloseErr(T)
+       ELSE Proto(pc[T] = "close", P!Close(T), "proto_unexpected_close")
+  ELSE UNCHANGED pv
 
 Ev(e) ==
   IF e.ev = "begin" THEN
-       /\ cur' = [op |-> e.op, slot |-> e.slot, before |-> parts, um |-> FALSE]
+       /\ cur' = [op |-> e.op, slot |-> e.slot, before |-> parts, um |-> FALSE, size |-> e.size]
        /\ Chk(fds = {}, "fd_open_across_ops")
        /\ UNCHANGED <<parts, fds, owner>>
   ELSE IF e.ev = "sys" /\ e.call = "openat" THEN
@@ -32,6 +70,10 @@ Ev(e) ==
        /\ UNCHANGED <<fds, owner>>
   ELSE IF e.ev = "end" /\ e.op = "new" THEN
        /\ Chk(fds = {}, "fd_leak")
+       \* the protocol path taken agrees with what the caller was told
+       /\ Chk(e.slot \notin Slots \/ ((e.result = "ok") <=> (pc[e.slot] = "ready")), "proto_result")
+       /\ Chk(e.slot \notin Slots \/ e.result = "ok" \/ pc[e.slot] = "idle", "proto_unfinished")
+       /\ Chk(P!PInv, "proto_invariant")
        \* a stream that cannot be set up is reported as an error
        /\ Chk(e.result = "ok" => (e.size > 0 /\ e.size % 4096 = 0 /\ e.size % e.elem = 0), "bad_size_accepted")
        /\ IF e.result = "ok"
@@ -45,12 +87,14 @@ Ev(e) ==
           ELSE /\ Chk(parts = cur.before, "mapping_left_after_failed_new")
                /\ Chk(e.result = "err", "new_panicked")
                /\ owner' = owner
-       /\ cur' = [op |-> "none", slot |-> 0, before |-> {}, um |-> FALSE]
+       /\ cur' = [op |-> "none", slot |-> 0, before |-> {}, um |-> FALSE, size |-> 0]
        /\ UNCHANGED <<parts, fds>>
   ELSE IF e.ev = "end" /\ e.op = "drop" THEN
+       /\ Chk(e.slot \notin Slots \/ pc[e.slot] \in {"gone", "idle"}, "proto_unfinished")
+       /\ Chk(P!PInv, "proto_invariant")
        /\ Chk(e.slot \notin DOMAIN owner \/ {p \in parts : p.r = owner[e.slot]} = {}, "mapping_left_after_drop")
        /\ Chk(fds = {}, "fd_leak")
-       /\ cur' = [op |-> "none", slot |-> 0, before |-> {}, um |-> FALSE]
+       /\ cur' = [op |-> "none", slot |-> 0, before |-> {}, um |-> FALSE, size |-> 0]
        /\ UNCHANGED <<parts, fds, owner>>
   ELSE IF e.ev = "quiet" THEN
        /\ Chk(parts = {}, "mappings_at_quiescence")
@@ -62,8 +106,10 @@ Ev(e) ==
        /\ Chk(e.read = e.wrote, "alias_mismatch") /\ Same
   ELSE Same
 
-TraceNext == l <= Len(Rec) /\ Ev(Rec[l]) /\ l' = l + 1
-TraceSpec == TraceInit /\ [][TraceNext]_<<vars, l>>
+TraceNext ==
+  /\ l <= Len(Rec) /\ Ev(Rec[l]) /\ l' = l + 1
+  /\ IF Rec[l].ev = "sys" THEN ProtoEv(Rec[l]) ELSE UNCHANGED pv
+TraceSpec == TraceInit /\ [][TraceNext]_<<vars, pv, l>>
 TraceAccepted ==
   LET d == TLCGet("stats").diameter IN
   IF d - 1 = Len(Rec) THEN TRUE ELSE PrintT("TRACE-REJECTED at event " \o ToString(d)) /\ FALSE
